@@ -3,7 +3,12 @@
 cd /verif
 ids=${@:-$(ls seeded)}
 for k in $ids; do
-  p=$(python3 -c "import json;print(json.load(open('seeded/$k/meta.json'))['property'])")
+  # the check that detects it (usually the seed's own property; sometimes a sibling property's check)
+  p=$(python3 -c "
+import json,re
+m=json.load(open('seeded/$k/meta.json'))
+d=re.search(r'check (C[0-9]+)', m.get('detected_by') or '')
+print(d.group(1) if d else m['property'])")
   [ "$k" = "C01s-B" ] && p=C13
   out=$(SKIP_SUITE=1 tools/seedtest.sh seeded/$k/patch.diff seeded/$k/demo.py $p 2>&1)
   d1=$(echo "$out" | grep -A1 "demo with patch" | grep -o "exit=[0-9]*"); ce=$(echo "$out" | grep -o "check-exit=[0-9]*"); ap=$(echo "$out" | grep -c PATCH-DOES-NOT-APPLY)
